@@ -94,6 +94,30 @@ def run(repo, rep, tier):
             rep.violation("R-E4-ID", site, "zero-interval",
                           "with final_epoch == start_epoch the routine does not return the input direction "
                           "(a precession angle has a non-zero constant term): a=%s" % T.show(a0)[:160], obligation=True)
+    # D3b near-pole branch: acos(sqrt(a^2+b^2)) is |declination|; it may replace asin(c) only where the guard implies a positive declination
+    for q in ("precession_equatorial", "precession_newcomb"):
+        site = MOD + "." + q
+        t = eval_prec(repo, q)
+        lat = t[2]
+        phis = [x for x in T.walk(lat) if x[0] == "phi" and any(y[0] == "call" and y[1] == "acos" for y in T.walk(x[2]))
+                and any(y[0] == "call" and y[1] == "asin" for y in T.walk(x[3]))]
+        if not phis:
+            # no acos shortcut at all is fine (asin(c) everywhere)
+            if any(y[0] == "call" and y[1] == "acos" for y in T.walk(lat)):
+                rep.violation("R-SIGN", site, "pole-branch-shape", "the near-pole branch is not `acos(.) if <declination test> else asin(c)`")
+            else:
+                rep.ok("R-SIGN", site, "declination always from asin(c)")
+            continue
+        for ph in phis:
+            c = ph[1]
+            ok = c[0] == "cmp" and c[1] in ("Gt", "GtE") and c[3][0] == "num" and c[3][1] >= 0 \
+                and any(y == T.sym("LAT") for y in T.walk(c[2])) and not any(y[0] == "call" and y[1] == "abs" for y in T.walk(c[2]))
+            if ok:
+                rep.ok("R-SIGN", site, "acos(sqrt(a^2+b^2)) (= |dec|, never negative) is used only under `dec > %s`, where the declination is positive" % T.show(c[3]))
+            else:
+                rep.violation("R-SIGN", site, "pole-branch-sign",
+                              "the near-pole shortcut acos(sqrt(a*a+b*b)) can only return a non-negative declination, but its guard `%s` also admits "
+                              "southern declinations: a star near the south pole comes out with the sign of its declination flipped" % T.show(c)[:80])
     # D4a rotation form of the two equatorial routines
     for q in ("precession_equatorial", "precession_newcomb"):
         site = MOD + "." + q
